@@ -22,6 +22,8 @@ macro_rules! dispatch {
             "C07" => $f(&props::c07::prop(), $($arg),*),
             "C08" => $f(&props::c08::prop(), $($arg),*),
             "C09" => $f(&props::c09::prop(), $($arg),*),
+            "C10" => $f(&props::c10::C10, $($arg),*),
+            "C11" => $f(&props::c11::C11, $($arg),*),
             "C12" => $f(&props::c12::C12, $($arg),*),
             "C13" => $f(&props::c13::prop(), $($arg),*),
             "C14" => $f(&props::c14::prop(), $($arg),*),
@@ -30,6 +32,7 @@ macro_rules! dispatch {
             "C17" => $f(&props::c17::C17, $($arg),*),
             "C18" => $f(&props::c18::C18, $($arg),*),
             "C19" => $f(&props::c19::C19Prop, $($arg),*),
+            "C20" => $f(&props::c20::C20, $($arg),*),
             other => {
                 eprintln!("unknown property {}", other);
                 2
